@@ -16,6 +16,14 @@ import vlib
 
 TWO_PI = 2 * math.pi
 
+# Non-zero factors for "multiplied by any non-zero constant".  Moderate ones of both signs, the small physical
+# magnitudes +-1e-9 and 1e-11 (their squares 1e-18 / 1e-22 are far below machine epsilon 2.2e-16, so any absolute
+# floor on the squared norm shows up), 1e9, and the extremes 1e-150 / 1e145: the generated fields have
+# 1e-3 <= sum f^2 <= 4.2e7 (at most 4096 cells, |f| <= ~101), so c^2 * sum f^2 stays inside the normal binary64 range
+# (1e-303 .. 4.2e297; 1e150 would reach 4.2e307, too close to the overflow threshold 1.8e308).
+SCALE_FACTORS = [-3.5, 0.5, 1e-9, -1e-9, 1e-11, 1e-150, 1e9, -1e9, 1e145]
+POSITIVE_SCALE_FACTORS = [c for c in SCALE_FACTORS if c > 0]
+
 
 # ---------------------------------------------------------------------------------------------
 # cases
